@@ -1,10 +1,10 @@
 SPECIFICATION Spec
 CONSTANTS
-  Names <- NamesQuick
+  Names <- NamesLife
   Vers <- VersQuick
   Msgs <- MsgsOne
   MacroMsgs <- MacroMsgsQuick
-  Levels <- LevelsTwo
+  Levels <- LevelsZero
   Clocks <- ClocksQuick
   Sites <- SitesOne
   Macros <- MacrosNone
